@@ -188,7 +188,8 @@ Definition base_of (ver kind : Z) (raw rep : list Z) (e : Z) : val * dsrc :=
   let d := if kind =? 0 then mkD raw rep else valid_prefix raw rep in
   let empty := match d_fixed d, d_rep d with [], [] => true | _, _ => false end in
   let lead0 := match d_fixed d ++ d_rep d with 0 :: _ => true | _ => false end in
-  if empty || ((kind =? 1) && (ver =? 3) && lead0) then (zero, mkD [] [])
+  (* v1/v2 have no public constructor taking a digit source: the verif hook wraps the source as it is *)
+  if (ver =? 3) && (empty || ((kind =? 1) && lead0)) then (zero, mkD [] [])
   else if (ver =? 3) && negb ((kind =? 0) && match rep with [] => true | _ => false end)
        then (ON (FN SMemo e), d)
        else (FN SMemo e, d).
@@ -196,3 +197,13 @@ Definition base_of (ver kind : Z) (raw rep : list Z) (e : Z) : val * dsrc :=
 Definition run_history (ver kind : Z) (raw rep : list Z) (e : Z) (ops : list hop) : list Z :=
   let '(v, d) := base_of ver kind raw rep e in
   run_ops ver d (mkH [v] []) ops.
+
+(* ---- C13: NewNumberForTesting / NewFiniteNumber argument check, NewNumber(g) ---- *)
+(* 0 = a Number, 1 = the zero number, 2 = error *)
+Definition test_number_status (fixed rep : list Z) : Z :=
+  match fixed, rep with
+  | [], [] => 1
+  | _, _ =>
+    if negb (forallb in_range (fixed ++ rep)) then 2
+    else match fixed ++ rep with 0 :: _ => 2 | _ => 0 end
+  end.
